@@ -5,7 +5,7 @@ declaration order) violates the statement.  The harness replays the same inputs 
 (harness/c10.py `CORPUS`).
 -/
 namespace St4sd.C10.Witness
-open St4sd.ArgSubst
+open St4sd.ArgSubst St4sd.Str
 
 def refA : Ref := { abs := "stage0.A:ref".toList, rel := "A:ref".toList, relActive := true, kind := .ref, value := some "/i/stages/stage0/A".toList }
 def refBA : Ref := { abs := "stage0.BA:ref".toList, rel := "BA:ref".toList, relActive := true, kind := .ref, value := some "/i/stages/stage0/BA".toList }
@@ -56,5 +56,40 @@ theorem strip_is_not_the_output_value :
     outputValue "  ATOM  1 \t\n\n".toList = "  ATOM  1 \t".toList ∧
     St4sd.Str.strip "  ATOM  1 \t\n\n".toList = "ATOM  1".toList ∧
     outputValue " a\r\n".toList = " a\r".toList ∧ loopInstanceValue " a\r\n".toList = " a".toList := by decide
+
+/-! ### the file part: `None` is not the empty string -/
+
+/-- the reference declared as `Gen/:ref` read with the file part tested for truthiness: the spellings lose the `/` -/
+def genSlashTruthy : Ref :=
+  { abs := withFileTruthy "stage1.Gen".toList (some []) ++ ":ref".toList,
+    rel := withFileTruthy "Gen".toList (some []) ++ ":ref".toList,
+    relActive := true, kind := .ref, value := some (refPath "/i/stages/stage1/Gen".toList (some [])) }
+
+/-- **Why the spellings must keep an empty file part.**  `Gen/:ref` declared and written in the command line: with
+the spellings of the code (`withFile`, `is not None`) the token is replaced by `<dir>/`; were the empty file part
+treated as absent (`if self.fileRef:`), the spellings would be `Gen:ref` / `stage1.Gen:ref`, which do not occur in
+the text: nothing is replaced, the reference is reported unused and the text is flagged as an unresolved
+reference — a valid workflow would be rejected. -/
+theorem empty_file_part_must_be_spelled :
+    ((declOfText 1 false "Gen/:ref".toList (.path (refPath "/i/stages/stage1/Gen".toList (some [])))).map
+        fun d => (resolveD [d] "-a Gen/:ref stage1.Gen/:ref".toList).out)
+      = some "-a /i/stages/stage1/Gen/ /i/stages/stage1/Gen/".toList ∧
+    genSlashTruthy.spellings = ["stage1.Gen:ref".toList, "Gen:ref".toList] ∧
+    (resolve [genSlashTruthy] "-a Gen/:ref stage1.Gen/:ref".toList).out = "-a Gen/:ref stage1.Gen/:ref".toList ∧
+    (resolve [genSlashTruthy] "-a Gen/:ref stage1.Gen/:ref".toList).unused = ["stage1.Gen:ref".toList] ∧
+    (resolve [genSlashTruthy] "-a Gen/:ref stage1.Gen/:ref".toList).unresolved = true := by decide
+
+/-- the `:loopref` branch of `DataReference.resolve` does test the file part for truthiness: the VALUE of
+`Gen/:loopref` has no trailing separator while that of `Gen/:ref` has one (the spellings keep it in both cases) -/
+theorem loopref_drops_empty_file_part_in_the_value_only :
+    loopRefPath "/i/stages/stage0/0#Gen".toList (some []) = "/i/stages/stage0/0#Gen".toList ∧
+    refPath "/i/stages/stage0/0#Gen".toList (some []) = "/i/stages/stage0/0#Gen/".toList ∧
+    loopRefPath "/i/stages/stage0/0#Gen".toList (some "t/".toList) = "/i/stages/stage0/0#Gen/t/".toList := by decide
+
+/-- outside `TextOk` (hypothesis `file_rel` of `Props.C10.relative_text_spellings`): a file part that starts with
+a separator (`Gen//o:ref`) makes `os.path.join` drop the producer — the spellings are `/o:ref`, not the declared
+text.  Such references are not generated by the harness. -/
+theorem doubled_separator_spelling_is_not_the_text :
+    (parseRef 0 false "Gen//o:ref".toList).map Parts.absSpelling = some "/o:ref".toList := by decide
 
 end St4sd.C10.Witness
